@@ -24,8 +24,8 @@ PID = "C55"
 LEVEL = "translation_validation"
 LEAN = ["SaVerif.Props.C55"]
 META = {
-    "text": "Differential check of the two builds of every dual-implemented module (util/_collections_cy, util/_immutabledict_cy, engine/_processors_cy, engine/_util_cy, sql/_util_cy, engine/_row_cy, engine/_result_cy): one seeded workload (operation sequences on OrderedSet/IdentitySet/immutabledict/unique_list, result processors on valid/invalid/None inputs, _distill_params on every parameter shape, tuplegetter, anon_map/prefix_anon_map lookup histories, Row access patterns incl. pickling, Result fetch sequences with scalars/mappings/columns/unique/yield_per/partitions) is executed in two processes — all modules pure Python vs every non-stale pre-built extension loaded — and return values / exception types / resulting states are compared; both are compared with the Lean models of C54 and M-CYUTIL and with independent reference oracles. Lean: refine_trans (both builds refining one model are interchangeable), tuplegetter_eq_itemgetter (the contiguous-slice fast path is unobservable for valid indexes), anon_map index stability / density / injectivity.",
-    "note": "The extensions cannot be rebuilt (no Cython): an extension is examined only while its .py is byte-identical to the source it was built from; a stale extension is reported in evidence and skipped (util/_collections_cy is stale since the F9/F18 fixes). Theorem content is thin (the claim is carried by the differential run): level translation_validation. engine/_result_cy and engine/_row_cy have no Lean model here (C10/C11 own M-RESULT); they are covered by the py-vs-so differential and by reference oracles (tuple / row-stream semantics). Performance and C-level behaviour are not compared.",
+    "text": "Differential check of the two builds of every dual-implemented module (util/_collections_cy, util/_immutabledict_cy, engine/_processors_cy, engine/_util_cy, sql/_util_cy, engine/_row_cy, engine/_result_cy): one seeded workload (operation sequences on OrderedSet/IdentitySet/immutabledict/unique_list, result processors on valid/invalid/None inputs, _distill_params on every parameter shape, tuplegetter, anon_map/prefix_anon_map lookup histories, Row access patterns incl. pickling, Result fetch sequences with scalars/mappings/columns/unique/yield_per/partitions) is executed in two processes — all modules pure Python vs every non-stale pre-built extension loaded — and return values / exception types / resulting states are compared; both builds are compared with one Lean model each case kind has: the collection models of C54, M-CYUTIL, M-ROW (BaseRow/Row: tuple semantics, key access, ordering, hash, pickling) and — reusing the operation sequences, executor and line format of C10 — M-RESULT (every result kind: cursor strategies, IteratorResult, ChunkedIteratorResult, MergedResult, frozen results, scalars/mappings/unique/columns/yield_per/partitions), plus independent reference oracles. Lean: refine_trans (both builds refining one model are interchangeable), tuplegetter_eq_itemgetter (the contiguous-slice fast path is unobservable for valid indexes), anon_map index stability / density / injectivity, apply_processors_spec, row_key_access, row_pickle_roundtrip, row_ordering_is_tuple_ordering (strict total lexicographic order).",
+    "note": "The extensions cannot be rebuilt (no Cython): an extension is examined only while its .py is byte-identical to the source it was built from; a stale extension is reported in evidence and skipped (util/_collections_cy is stale since the F9/F18 fixes). Theorem content is thin (the claim is carried by the differential run): level translation_validation. engine/_result_cy is compared with M-RESULT of C10 (its assumptions and hazard truncation apply unchanged: only the prefix of each sequence whose outputs C10 determines is compared), engine/_row_cy with M-ROW (integer values, distinct keys). Performance and C-level behaviour are not compared.",
     "technique": "two-process differential execution of both builds on one seeded workload + correspondence with Lean models + reference oracles; Lean lemmas for the helper fast paths",
     "design_ref": "DESIGN.md §3 C55",
 }
@@ -52,6 +52,8 @@ KIND_DEPENDS = {
     "distill": ["sqlalchemy.engine._util_cy", "sqlalchemy.util._immutabledict_cy"],
     "sqlresult": ["sqlalchemy.engine._result_cy", "sqlalchemy.engine._row_cy", "sqlalchemy.engine._util_cy",
                   "sqlalchemy.engine._processors_cy", "sqlalchemy.util._immutabledict_cy"],
+    "c10": ["sqlalchemy.engine._result_cy", "sqlalchemy.engine._row_cy", "sqlalchemy.engine._util_cy",
+            "sqlalchemy.util._immutabledict_cy"],
 }
 
 
@@ -119,6 +121,12 @@ def make_workload(ctx, thorough):
         seq = [rng.randrange(6) for _ in range(rng.randint(0, 8))]
         w.append({"kind": "unique_list", "seq": seq, "form": rng.choice(["list", "tuple", "iter", "gen"])})
     w += Y.gen_cases(rng, 12000 if thorough else 2500)
+    # result-delivery op sequences of C10 (every result kind), compared with M-RESULT
+    from harness.props import c10
+
+    for i in range(6000 if thorough else 700):
+        case = c10.gen_memo_scenario(rng, ctx.tier) if i % 4 == 3 else c10.gen_case(rng, ctx.tier)
+        w.append({"kind": "c10", "case": case})
     return w
 
 
@@ -137,6 +145,7 @@ MODULE_OF_KIND = {
     "row": "sqlalchemy.engine._row_cy",
     "result": "sqlalchemy.engine._result_cy",
     "sqlresult": "sqlalchemy.engine._result_cy",
+    "c10": "sqlalchemy.engine._result_cy",
 }
 
 
@@ -189,7 +198,8 @@ def run(ctx, deep=False, only_workload=None):
             ctx.obligation("c55:source-mode:" + m, False, "pure-Python run loaded a compiled module")
     ctx.count("modules.compared.py-vs-so", len(BUILT_FROM) - len(stale))
     cases_d, a_out, b_out = [], [], []
-    mcases, mimpl, mreq = [], [], []
+    mcases, mimpl, mreq, mfix = [], [], [], []
+    scases, simpl, sreq, sfix = [], [], [], []
     for c, rp, rs in zip(workload, py["results"], so["results"]):
         kind = c["kind"]
         ctx.case(json.dumps(c, sort_keys=True), nontrivial=True)
@@ -207,12 +217,29 @@ def run(ctx, deep=False, only_workload=None):
             mcases.append(c)
             mimpl.append(rp["out"])
             mreq.append(rp["req"])
+            mfix.append(bool(rp.get("nullfix")))
+        if comparable and rs.get("req") and rs["out"] != rp["out"]:
+            # the extension is compared with the model on its own as well
+            scases.append(c)
+            simpl.append(rs["out"])
+            sreq.append(rs["req"])
+            sfix.append(bool(rs.get("nullfix")))
     for i, c in enumerate(workload):
         if c["kind"] in ("row", "result", "proc", "distill") and len(ctx.samples) < 5 and i % 7 == 0:
             ctx.sample({"case": c, "py": py["results"][i]["out"], "so": so["results"][i]["out"]})
+    for i, c in enumerate(workload):
+        if c["kind"] == "c10" and len(ctx.samples) < 7 and len(py["results"][i]["out"]) > 60:
+            ctx.sample({"case": c, "py": py["results"][i]["out"], "so": so["results"][i]["out"]})
     ctx.correspond("corr/c55:pure-python-vs-prebuilt-extension", cases_d, a_out, b_out)
     if ctx.driver_ok() and mreq:
-        ctx.correspond("corr/c55:pure-python-vs-Lean-models", mcases, mimpl, ctx.driver(mreq))
+        from harness.props import c10
+
+        def fixed(model, impl, flags):
+            return [c10._null_fix(m, i) if f else m for m, i, f in zip(model, impl, flags)]
+
+        ctx.correspond("corr/c55:pure-python-vs-Lean-models", mcases, mimpl, fixed(ctx.driver(mreq), mimpl, mfix))
+        if sreq:
+            ctx.correspond("corr/c55:prebuilt-extension-vs-Lean-models", scases, simpl, fixed(ctx.driver(sreq), simpl, sfix))
     ctx.exhaustive = False
 
 
@@ -224,12 +251,16 @@ def search(ctx, broken):
     for d in ctx.disagreements + sub.disagreements:
         if d["corr"] == "corr/c55:pure-python-vs-prebuilt-extension":
             ctx.violation("py-vs-so-differ-" + d["case"]["kind"], {"workload": [d["case"]], "build": "both"}, "pure python: %s ; extension: %s" % (d["impl"], d["model"]))
+        elif d["corr"] == "corr/c55:pure-python-vs-Lean-models":
+            ctx.violation("py-differs-from-model-" + d["case"]["kind"], {"workload": [d["case"]], "build": "py"}, "pure python: %s ; Lean model: %s" % (d["impl"], d["model"]))
+        elif d["corr"] == "corr/c55:prebuilt-extension-vs-Lean-models":
+            ctx.violation("so-differs-from-model-" + d["case"]["kind"], {"workload": [d["case"]], "build": "so"}, "extension: %s ; Lean model: %s" % (d["impl"], d["model"]))
 
 
 def replay(ctx, obj):
     c = obj["case"]
     sub = type(ctx)(ctx.pid, "quick", ctx.seed, ctx.level)
     run(sub, only_workload=c["workload"])
-    differ = [d for d in sub.disagreements if d["corr"] == "corr/c55:pure-python-vs-prebuilt-extension"]
+    differ = list(sub.disagreements)
     print("replay C55 %s\n  oracle violations: %s\n  py-vs-so disagreements: %s" % (json.dumps(c["workload"])[:400], [(v["key"], v["detail"]) for v in sub.violations], differ))
     return bool(sub.violations) or bool(differ)
